@@ -28,7 +28,22 @@ Subset and semantics (what the translator *assumes*, i.e. the trusted part):
   * method calls are calls of the generated definition of the *receiver's* class (virtual
     dispatch through the MRO, `super()` handled), single-`return` methods are inlined;
   * `for cb in self.callbacks` bodies are skipped (callback-free instance: `_callbacks = []`);
-  * list indexing assumes an in-range non-negative index (`nth`/`set_nth`).
+  * list indexing assumes an in-range non-negative index (`nth`/`set_nth`);
+  * `for _ in range(n)` over an int n is the bounded iterator `Py.iter_res`; `obj[i]` is the class's `__getitem__` inlined;
+  * library calls declared as ORACLES (`SPEC["oracles"]`, and the fixed set `np.random.choice(a=, size=, replace=False)`,
+    `ks_2samp(data1=, data2=, <constant options>)`, `scipy.special.logsumexp(vec)`, `norm(loc, scale).logpdf(x)`) are
+    uninterpreted functions: section parameters of the generated file, whose NAME carries the constant keyword options;
+    only the exceptions NumPy raises before computing are modelled (a sample larger than the population, a negative
+    `islice` bound); `collections.deque(maxlen=config.<attr>)` fields (`SPEC["deques"]`): `append` keeps the last maxlen;
+  * NumPy 1-D float arrays are `list (num A)`: `np.array([..])`, `a op b` elementwise (array with scalar: `map`; two
+    arrays: equal lengths REQUIRED - broadcasting a length-1 array is outside the subset and guarded as `ValueError`),
+    `a[i]` (i >= 0, `IndexError` guard), `a[:k]` (0 <= k <= len, guarded), `a[:-1]`, `np.append(x | [x] | a, b)`,
+    `np.sqrt / np.exp / np.log` elementwise, `np.sum` as a left-to-right sum (NumPy adds pairwise: equal over R, a
+    rounding-level difference in binary64), `a.argmax()` = position of the first maximum (`g_argmax`, defined in the
+    generated prelude); a 2-D array grown by the idiom `np.concatenate((np.pad(M, ((0,0),(0,1)), constant_values=-inf),
+    np.expand_dims(row, axis=0)), axis=0)` is the list of its rows WITHOUT the -inf padding, and `M[i, :k]` reads the
+    first k stored entries of row i (reading into the padding is guarded as `IndexError`; the Eq proofs show every such
+    guard unreachable, so on reachable states the representation is faithful).
 """
 from __future__ import annotations
 
@@ -98,6 +113,7 @@ class Translator:
         self.units = {}  # name -> coq text
         self.order = []
         self.used_oracles = {}  # name -> Coq type of the uninterpreted function
+        self.use_prelude = set()
         self.sigs = {}  # name -> (param tys, self ty, ret ty)
         self.layout_cache = {}
         self.inprogress = set()
@@ -373,6 +389,10 @@ class Translator:
             "Section Gen.",
             "  Context {A : Arith}" + "".join(f" ({o} : {t})" for o, t in sorted(self.used_oracles.items())) + ".",
         ]
+        if "g_argmax" in self.use_prelude:
+            out.append("(* numpy argmax of a 1-D array: position of the FIRST maximum *)")
+            out.append("Fixpoint g_argmax_from (l : list (num A)) (i best_i : Z) (best : num A) : Z :=\n  match l with [] => best_i | x :: r => if ltb best x then g_argmax_from r (Z.add i 1%Z) i x else g_argmax_from r (Z.add i 1%Z) best_i best end.")
+            out.append("Definition g_argmax (l : list (num A)) : Z := match l with [] => 0%Z | x :: r => g_argmax_from r 1%Z 0%Z x end.")
         for n in self.order:
             f, ln, q = self.sources[n]
             out.append(f"(* {q}  <-  {f}:{ln} *)")
@@ -1007,6 +1027,8 @@ class Frame:
                         raise Unsupported(f"read of unset entry {key}")
                     return v
                 raise Unsupported("string subscript")
+            if isinstance(n.slice, ast.Slice) or (isinstance(n.slice, ast.Tuple) and len(n.slice.elts) == 2 and isinstance(n.slice.elts[1], ast.Slice)):
+                return self.ev_slice(n)
             l, i = self.ev(n.value, allow_dict=True), self.ev(n.slice)
             if isinstance(l, O):
                 d = self.tr.find(l.cls, "__getitem__")
@@ -1021,6 +1043,11 @@ class Frame:
                 return ("lambdasel", i, l[1], l[2])
             if isinstance(l, V) and isinstance(l.ty, tuple) and l.ty[0] == "list" and i.ty == INT and isinstance(l.ty[1], tuple) and l.ty[1][0] == "opt":
                 return V(f"(nth (Z.to_nat {i.e}) {l.e} None)", l.ty[1])
+            if isinstance(l, V) and is_vec(l.ty) and isinstance(i, V) and i.ty == INT:
+                # arr[i], i >= 0 (a negative index counts from the end in Python: outside the subset, guarded)
+                la = self.bind_atomic(l, "arr_")
+                self.guard(f"(orb (Z.ltb {i.e} 0%Z) (Z.leb (Z.of_nat (length {la.e})) {i.e}))", "IndexError")
+                return V(f"(nth (Z.to_nat {i.e}) {la.e} (@ofZ A 0%Z))", NUM)
             raise Unsupported(f"subscript {ast.unparse(n)}")
         if isinstance(n, ast.UnaryOp):
             x = self.ev(n.operand)
@@ -1077,9 +1104,58 @@ class Frame:
                 raise Unsupported("itertools.islice typing")
             self.guard(f"(orb (Z.ltb {a.e} 0%Z) (Z.ltb {b.e} 0%Z))", "ValueError")
             return V(f"(firstn (Z.to_nat (Z.sub {b.e} {a.e})) (skipn (Z.to_nat {a.e}) {seq.e}))", seq.ty)
+        if isinstance(n, ast.List) and n.elts and not any(isinstance(e, ast.Starred) for e in n.elts):
+            vs = [self.ev(e) for e in n.elts]
+            if all(isinstance(v, V) and v.ty in (INT, NUM) for v in vs):
+                return V("[" + "; ".join(coerce(v, NUM).e for v in vs) + "]", lst(NUM))
+            if all(isinstance(v, V) and is_vec(v.ty) for v in vs):
+                return V("[" + "; ".join(v.e for v in vs) + "]", lst(lst(NUM)))
+            raise Unsupported("list literal typing")
         if isinstance(n, ast.Call):
             return self.call_expr(n)
         raise Unsupported(f"expression {type(n).__name__}: {ast.unparse(n)[:80]}")
+
+    def ev_slice(self, n):
+        """arr[:k], arr[:-1] on a 1-D array; mat[i, :k] on the ragged representation of a 2-D array (see builtin
+        np.concatenate): the upper bound must not exceed the stored length (what lies beyond is padding: guarded)"""
+        def upper(sl):
+            if sl.lower is not None or sl.step is not None or sl.upper is None:
+                raise Unsupported(f"slice {ast.unparse(n)}")
+            if isinstance(sl.upper, ast.UnaryOp) and isinstance(sl.upper.op, ast.USub) and isinstance(sl.upper.operand, ast.Constant) and sl.upper.operand.value == 1:
+                return "last"
+            k = self.ev(sl.upper)
+            if not (isinstance(k, V) and k.ty == INT):
+                raise Unsupported("slice bound typing")
+            return k
+        if isinstance(n.slice, ast.Slice):
+            l = self.ev(n.value, allow_dict=True)
+            if not (isinstance(l, V) and is_vec(l.ty)):
+                raise Unsupported(f"slice of {ast.unparse(n.value)}")
+            k = upper(n.slice)
+            if k == "last":
+                return V(f"(removelast {l.e})", l.ty)
+            la = self.bind_atomic(l, "arr_")
+            self.guard(f"(orb (Z.ltb {k.e} 0%Z) (Z.ltb (Z.of_nat (length {la.e})) {k.e}))", "IndexError")
+            return V(f"(firstn (Z.to_nat {k.e}) {la.e})", l.ty)
+        m = self.ev(n.value, allow_dict=True)
+        i = self.ev(n.slice.elts[0])
+        k = upper(n.slice.elts[1])
+        if not (isinstance(m, V) and is_mat(m.ty) and isinstance(i, V) and i.ty == INT and k != "last"):
+            raise Unsupported(f"2-D subscript {ast.unparse(n)}")
+        ma = self.bind_atomic(m, "mat_")
+        self.guard(f"(orb (Z.ltb {i.e} 0%Z) (Z.leb (Z.of_nat (length {ma.e})) {i.e}))", "IndexError")
+        row = self.tr.name("row_")
+        self.cur.let(row, f"(nth (Z.to_nat {i.e}) {ma.e} [])")
+        self.guard(f"(orb (Z.ltb {k.e} 0%Z) (Z.ltb (Z.of_nat (length {row})) {k.e}))", "IndexError")
+        return V(f"(firstn (Z.to_nat {k.e}) {row})", lst(NUM))
+
+    def bind_atomic(self, v, hint="t_"):
+        """name a compound expression so that it is evaluated once"""
+        if self._atomic(v.e) or self.cur is None:
+            return v
+        nm = self.tr.name(hint)
+        self.cur.let(nm, v.e)
+        return V(nm, v.ty)
 
     def guard(self, cond, exn):
         if self.cur is None:
@@ -1121,6 +1197,21 @@ class Frame:
             a = V(f"(b2z {a.e})", INT)
         if b.ty == BOOL:
             b = V(f"(b2z {b.e})", INT)
+        if is_vec(a.ty) or is_vec(b.ty):
+            # NumPy 1-D float arrays: elementwise arithmetic; two arrays must have the same length (broadcasting a
+            # length-1 array against a longer one is outside the subset: guarded as ValueError, proved unreachable)
+            f = {ast.Add: "add", ast.Sub: "sub", ast.Mult: "mul", ast.Div: "div"}.get(type(op))
+            if f is None:
+                raise Unsupported(f"array operator {ast.unparse(n)}")
+            if is_vec(a.ty) and is_vec(b.ty):
+                na, nb = self.bind_atomic(a, "va_"), self.bind_atomic(b, "vb_")
+                self.guard(f"(negb (Nat.eqb (length {na.e}) (length {nb.e})))", "ValueError")
+                return V(f"(map (fun ab_ : num A * num A => {f} (fst ab_) (snd ab_)) (combine {na.e} {nb.e}))", lst(NUM))
+            if is_vec(a.ty) and b.ty in (INT, NUM):
+                return V(f"(map (fun a_ : num A => {f} a_ {coerce(b, NUM).e}) {a.e})", lst(NUM))
+            if is_vec(b.ty) and a.ty in (INT, NUM):
+                return V(f"(map (fun b_ : num A => {f} {coerce(a, NUM).e} b_) {b.e})", lst(NUM))
+            raise Unsupported(f"array operands of {ast.unparse(n)}: {a.ty}, {b.ty}")
         if a.ty == INT and b.ty == INT and not isinstance(op, ast.Div):
             f = {ast.Add: "Z.add", ast.Sub: "Z.sub", ast.Mult: "Z.mul", ast.Mod: "Z.modulo", ast.FloorDiv: "Z.div"}.get(type(op))
             if f is None:
@@ -1270,7 +1361,11 @@ class Frame:
                 orc = self.tr.spec.get("oracles", {})
                 if okey in orc or okey2 in orc:
                     return ("oracle", orc.get(okey, orc.get(okey2)))
+            if f.attr == "logpdf" and isinstance(f.value, ast.Call) and isinstance(f.value.func, ast.Name) and f.value.func.id == "norm" and "norm" not in self.env:
+                return ("normlogpdf", f.value)
             recv = self.ev(f.value)
+            if isinstance(recv, V) and is_vec(recv.ty) and f.attr == "argmax":
+                return ("argmax", recv)
             if isinstance(recv, O):
                 if self.tr.find(recv.cls, f.attr, kind="getter") and not self.tr.find(recv.cls, f.attr, kind="method"):
                     sel = self.getattr(recv, f.attr)
@@ -1329,7 +1424,7 @@ class Frame:
         if not isinstance(n, ast.Call):
             return False
         k = self.callee(n)
-        if k[0] in ("builtin", "lambdacall", "oracle"):
+        if k[0] in ("builtin", "lambdacall", "oracle", "normlogpdf", "argmax"):
             return False
         if k[0] in ("ctor", "basecall"):
             return True
@@ -1385,6 +1480,23 @@ class Frame:
             for kv, o in reversed(list(zip(keys[:-1], outs[:-1]))):
                 e = f"(if Z.eqb {key.e} {zlit(kv)} then {o.e} else {e})"
             return V(e, outs[0].ty)
+        if k[0] == "argmax":
+            if n.args or n.keywords:
+                raise Unsupported("argmax with arguments")
+            self.tr.use_prelude.add("g_argmax")
+            return V(f"(g_argmax {k[1].e})", INT)
+        if k[0] == "normlogpdf":
+            # scipy.stats.norm(loc, scale).logpdf(x) with array loc / scale: elementwise, an uninterpreted function of (x, loc, scale)
+            ctor = k[1]
+            if len(ctor.args) != 2 or ctor.keywords or len(n.args) != 1 or n.keywords:
+                raise Unsupported("norm(...).logpdf call shape")
+            loc, scale, x = self.ev(ctor.args[0]), self.ev(ctor.args[1]), coerce(self.ev(n.args[0]), NUM)
+            if not (is_vec(loc.ty) and is_vec(scale.ty)):
+                raise Unsupported("norm(...).logpdf typing")
+            la, sa = self.bind_atomic(loc, "loc_"), self.bind_atomic(scale, "scale_")
+            self.guard(f"(negb (Nat.eqb (length {la.e}) (length {sa.e})))", "ValueError")
+            self.tr.used_oracles["norm_logpdf"] = "num A -> num A -> num A -> num A"
+            return V(f"(map (fun ls_ : num A * num A => norm_logpdf {x.e} (fst ls_) (snd ls_)) (combine {la.e} {sa.e}))", lst(NUM))
         if k[0] == "oracle":
             if len(n.args) != 1 or n.keywords:
                 raise Unsupported("oracle call with other than one positional argument")
@@ -1417,6 +1529,23 @@ class Frame:
             for v in vs:
                 e = v.e if e == unit else f"({op} {e} {v.e})"
             return V(e, BOOL)
+        if name == "np.concatenate":
+            # the idiom that grows a 2-D array by one row AND one column:
+            #   np.concatenate((np.pad(array=M, pad_width=((0, 0), (0, 1)), constant_values=-np.inf), np.expand_dims(row, axis=0)), axis=0)
+            # representation: the list of rows without their -inf padding (row i keeps the i+1 entries it was given)
+            kw = {k.arg: k.value for k in n.keywords}
+            ok = len(n.args) == 1 and isinstance(n.args[0], ast.Tuple) and len(n.args[0].elts) == 2 and ast.unparse(kw.get("axis", ast.Constant(value=None))) == "0"
+            if ok:
+                pad, exp = n.args[0].elts
+                okp = isinstance(pad, ast.Call) and ast.unparse(pad.func) == "np.pad" and not pad.args and {k.arg for k in pad.keywords} == {"array", "pad_width", "constant_values"}
+                oke = isinstance(exp, ast.Call) and ast.unparse(exp.func) == "np.expand_dims" and len(exp.args) == 1 and [(k.arg, ast.unparse(k.value)) for k in exp.keywords] == [("axis", "0")]
+                if okp and oke:
+                    pk = {k.arg: k.value for k in pad.keywords}
+                    if ast.unparse(pk["pad_width"]) == "((0, 0), (0, 1))" and ast.unparse(pk["constant_values"]) == "-np.inf":
+                        m, r = self.ev(pk["array"]), self.ev(exp.args[0])
+                        if isinstance(m, V) and is_mat(m.ty) and isinstance(r, V) and is_vec(r.ty):
+                            return V(f"({m.e} ++ [{r.e}])", m.ty)
+            raise Unsupported("np.concatenate other than the pad-and-append-row idiom")
         args = [self.ev(a) for a in n.args]
         if name == "len":
             x = args[0]
@@ -1444,6 +1573,8 @@ class Frame:
             return V(f"(if ltb {b.e} {a.e} then {b.e} else {a.e})", NUM)
         if name == "np.power" and len(args) == 2 and args[0].ty == NUM and isinstance(n.args[1], ast.Constant) and isinstance(n.args[1].value, int) and n.args[1].value >= 0:
             return V(f"(powN {args[0].e} {n.args[1].value})", NUM)
+        if name in ("np.sqrt", "np.exp", "np.log") and len(args) == 1 and isinstance(args[0], V) and is_vec(args[0].ty) and not n.keywords:
+            return V(f"(map {dict([('np.sqrt', 'sqrt'), ('np.exp', 'exp'), ('np.log', 'ln')])[name]} {args[0].e})", lst(NUM))
         if name in ("np.sqrt", "math.sqrt") and len(args) == 1:
             return V(f"(sqrt {coerce(args[0], NUM).e})", NUM)
         if name in ("np.log", "math.log") and len(args) == 1:
@@ -1469,6 +1600,25 @@ class Frame:
             elif a.ty != NONE:
                 raise Unsupported("np.random.seed argument")
             return V("tt", UNIT)
+        if name == "np.array" and len(args) == 1 and not n.keywords and isinstance(n.args[0], ast.List):
+            return args[0]  # a float array given by its elements (1-D) / its rows (2-D)
+        if name == "np.append" and len(args) == 2 and not n.keywords:
+            a, b = args
+            if not (isinstance(b, V) and is_vec(b.ty)):
+                raise Unsupported("np.append typing")
+            if a.ty in (INT, NUM):
+                return V(f"({coerce(a, NUM).e} :: {b.e})", lst(NUM))
+            if is_vec(a.ty):
+                return V(f"({a.e} ++ {b.e})", lst(NUM))
+            raise Unsupported("np.append typing")
+        if name == "np.sum" and len(args) == 1 and not n.keywords and isinstance(args[0], V) and is_vec(args[0].ty):
+            return V(f"(sumA {args[0].e})", NUM)  # NumPy adds pairwise: same value over R, a rounding-level difference in binary64
+        if name == "logsumexp" and len(args) == 1 and not n.keywords:
+            x = args[0]
+            if not (isinstance(x, V) and is_vec(x.ty)):
+                raise Unsupported("logsumexp typing")
+            self.tr.used_oracles["sp_logsumexp"] = "list (num A) -> num A"
+            return V(f"(sp_logsumexp {x.e})", NUM)
         if name == "np.random.choice":
             kw = {k.arg: k.value for k in n.keywords}
             if n.args or set(kw) != {"a", "size", "replace"} or not (isinstance(kw["replace"], ast.Constant) and kw["replace"].value is False):
@@ -1694,6 +1844,14 @@ def join(a, b):
     if isinstance(b, tuple) and b[0] == "opt" and b[1] == a:
         return b
     raise Unsupported(f"cannot join types {a} and {b}")
+
+
+def is_vec(t):
+    return isinstance(t, tuple) and t[0] == "list" and t[1] == NUM
+
+
+def is_mat(t):
+    return isinstance(t, tuple) and t[0] == "list" and is_vec(t[1])
 
 
 def coerce(v: V, ty):
